@@ -8,13 +8,13 @@ for fl in ('MEMB', 'MB', 'BP'):
     d = ('FLAVOR_' + fl, '_LGPL_SOURCE')
     pre = '_urcu_%s_' % fl.lower()
     OBLIGATIONS += [
-        Ob(name='C01.O1.%s.state' % fl.lower(), harness=R, entry='h_state', defines=d, unwind=1, min_covers=3, checks=CK2,
+        Ob(name='C01.O1.%s.state' % fl.lower(), harness=R, entry='h_state', defines=d, unwind=1, native=True, min_covers=3, checks=CK2,
            functions=('urcu_bp_reader_state',) if fl == 'BP' else ('urcu_common_reader_state',),
            desc='%s: reader-state classification = spec function of (reader word, gp.ctr) over all 2^128 pairs, one snapshot of the word, read-only' % fl.lower()),
-        Ob(name='C01.O2.%s.lock' % fl.lower(), harness=R, entry='h_lock', defines=d, unwind=1, min_covers=2, checks=CK2,
+        Ob(name='C01.O2.%s.lock' % fl.lower(), harness=R, entry='h_lock', defines=d, unwind=1, native=True, min_covers=2, checks=CK2,
            functions=(pre + 'read_lock', pre + 'read_lock_update'),
            desc='%s: rcu_read_lock for every reader word: outermost = snapshot of gp.ctr + slave barrier after the store, nested = +COUNT with phase kept; one store' % fl.lower()),
-        Ob(name='C01.O2.%s.unlock' % fl.lower(), harness=R, entry='h_unlock', defines=d, unwind=1, min_covers=3, checks=CK2,
+        Ob(name='C01.O2.%s.unlock' % fl.lower(), harness=R, entry='h_unlock', defines=d, unwind=1, native=True, min_covers=3, checks=CK2,
            functions=(pre + 'read_unlock', pre + 'read_unlock_update_and_wakeup', 'urcu_common_wake_up_gp'),
            desc='%s: rcu_read_unlock for every reader word: -COUNT with phase kept; outermost: barrier before the store, store -> barrier -> futex test, wake-up iff futex == -1' % fl.lower()),
     ]
@@ -38,7 +38,7 @@ OBLIGATIONS.append(Ob(name='C01.O5.qsbr.sync_skeleton', harness='C01/sync_bp_qsb
    desc='qsbr (64-bit): synchronize_rcu skeleton: caller offline (or full barrier) before queuing itself; merged caller only waits; leader: lock gp, move_waiters, lock registry, counter += GP_CTR exactly once, one scan, splice, unlocks, wake_all; online again iff it was (else full barrier)'))
 for entry, fns, what in (('h_state', ('urcu_qsbr_reader_state',), 'classification'), ('h_quiescent_state', ('_urcu_qsbr_quiescent_state', '_urcu_qsbr_quiescent_state_update_and_wakeup', 'urcu_qsbr_wake_up_gp'), 'quiescent_state'),
                           ('h_offline', ('_urcu_qsbr_thread_offline', 'urcu_qsbr_wake_up_gp'), 'thread_offline'), ('h_online', ('_urcu_qsbr_thread_online',), 'thread_online')):
-    OBLIGATIONS.append(Ob(name='C01.O3.qsbr.' + entry[2:], harness='C01/qsbr.c', entry=entry, defines=('_LGPL_SOURCE',), unwind=1, min_covers=1, checks=CK2, functions=fns,
+    OBLIGATIONS.append(Ob(name='C01.O3.qsbr.' + entry[2:], harness='C01/qsbr.c', entry=entry, defines=('_LGPL_SOURCE',), unwind=1, native=True, min_covers=1, checks=CK2, functions=fns,
                           desc='qsbr ' + what + ': reader-word update for all values; seq-cst publication; store -> barrier -> waiting test; waiting cleared -> barrier -> futex test; wake iff waiting && futex == -1'))
 META = {
     'level': 'other',
